@@ -253,7 +253,7 @@ Out(s, a) == CASE a.t = "Timer" -> OutTimer(s, a.desired)
 (***************************************************************************)
 AllState == {"proto", "k", "since", "tries", "pend", "deny", "remoteMin", "lastPoll", "stash", "stratum", "refLocal"}
 AllOut == {"out.actions", "out.ver", "out.poll", "out.marker", "out.cookie", "out.placeholders",
-           "out.usable", "out.meas", "out.stored", "out.len", "out.timer_ok", "panic"}
+           "out.usable", "out.meas", "out.meas_over", "out.stored", "out.len", "out.timer_ok", "panic"}
 
 \* The cones depend on the step only through three attributes, gathered in a key (so that the generator can
 \* print the key with every transition and the table once).
@@ -268,16 +268,20 @@ ConesOf(k) ==
       timer == k[1] = "Timer"
       kind  == k[2]
   IN [C07 |-> IF Nts /\ recv /\ k[3] THEN AllState \cup AllOut ELSE {},
-      C08 |-> IF recv THEN {"out.meas", "pend", "panic"} ELSE {},
+      \* C08 is a necessary condition ("only if"): a measurement the specification does not expect, or an
+      \* outstanding request not consumed/kept as specified (replay protection), falsifies it; a *missing*
+      \* measurement does not ("out.meas_over" = more measurements than expected).
+      C08 |-> IF recv THEN {"out.meas_over", "pend", "panic"} ELSE {},
       C09 |-> IF recv /\ kind \in {"rate", "deny", "ntsn", "kiss"}
                  THEN {"remoteMin", "deny", "since", "tries", "pend", "stratum", "lastPoll", "out.actions", "out.meas", "panic"}
               ELSE IF timer THEN {"out.poll", "out.actions"} ELSE {},
       C10 |-> IF timer THEN {"out.poll", "out.timer_ok", "lastPoll"}
               ELSE IF recv THEN {"remoteMin"} ELSE {},
       C11 |-> IF timer THEN {"out.actions", "since", "tries", "panic"}
-              ELSE IF recv THEN {"since"} ELSE {},
+              \* (pend: a usable answer only counts if the outstanding request is still there to be answered)
+              ELSE IF recv THEN {"since", "pend", "deny"} ELSE {},
       C12 |-> IF timer THEN {"proto", "k", "out.ver", "out.marker"}
-              ELSE IF recv THEN {"proto", "k", "out.meas"} ELSE {},
+              ELSE IF recv THEN {"proto", "k", "out.meas_over"} ELSE {},
       C13 |-> IF Nts /\ timer THEN {"out.cookie", "out.placeholders", "stash"}
               ELSE IF Nts /\ recv THEN {"stash", "out.stored"} ELSE {},
       C14 |-> IF timer THEN {"panic", "out.len", "out.actions"} ELSE {},
